@@ -227,7 +227,7 @@ theorem shootGuarded_shape :
 constructor with the gun's own client configuration and target; Bind takes the pool's next client; `Next` advances the
 counter BEFORE it indexes (`clientOf`: the k-th gun gets `pool[(k+1) % len]`) -/
 theorem sharedClient_shape :
-    Gen.HttpWire.sharedClient = ["prepareClientPool: if(!recv.Config.SharedClient.Enabled){return nil,nil} ; if(<(recv.Config.SharedClient.ClientNumber,lit:1)){recv.Config.SharedClient.ClientNumber=lit:1} ; def:=clientpool.New(recv.Config.SharedClient.ClientNumber) ; for(def:=lit:0;<(i,recv.Config.SharedClient.ClientNumber);i++){def:=recv.ClientConstructor();clientpool.New(recv.Config.SharedClient.ClientNumber)#0.Add(recv.ClientConstructor())} ; return clientpool.New(recv.Config.SharedClient.ClientNumber)#0,nil", "createSharedDeps: def:=recv.prepareClientPool() ; if(!=(.prepareClientPool()#1,nil)){return nil,.prepareClientPool()#1} ; return &composite:SharedDeps,nil", "WarmUp: return recv.createSharedDeps(param0)", "Bind: def:=param1.Shared.(type) ; if(&&(param1.Shared.(type)#1,!=(param1.Shared.(type)#0.clientPool,nil))){recv.Client=param1.Shared.(type)#0.clientPool.Next()}", "NewBaseGun ClientConstructor: return param0(param1.Client,param1.Target)", "clientpool.Add: recv.pool=append(recv.pool,param0)", "clientpool.Next: if(==(len(recv.pool),lit:0)){var;return zero} ; def:=recv.i.Add(lit:1) ; return recv.pool[%(conv(recv.i.Add(lit:1)),len(recv.pool))]"] := rfl
+    Gen.HttpWire.sharedClient = ["prepareClientPool: see sharedPool, sharedPoolFill", "createSharedDeps: def:=recv.prepareClientPool() ; if(!=(.prepareClientPool()#1,nil)){return nil,.prepareClientPool()#1} ; return &composite:SharedDeps,nil", "WarmUp: return recv.createSharedDeps(param0)", "Bind: def:=param1.Shared.(type) ; if(&&(param1.Shared.(type)#1,!=(param1.Shared.(type)#0.clientPool,nil))){recv.Client=param1.Shared.(type)#0.clientPool.Next()}", "NewBaseGun ClientConstructor: return param0(param1.Client,param1.Target)", "clientpool.Add: recv.pool=append(recv.pool,param0)", "clientpool.Next: if(==(len(recv.pool),lit:0)){var;return zero} ; def:=recv.i.Add(lit:1) ; return recv.pool[%(conv(recv.i.Add(lit:1)),len(recv.pool))]"] := rfl
 
 /-- the end of a pass in the four Scan loops: the pass is counted and checked against `passes`, the common header of
 uri/uripost is replaced by an EMPTY map (`scanAll` starts every pass with `[]`), the file is read again from offset 0 with a
@@ -251,11 +251,69 @@ no pool unless `shared-client.enabled`, whatever `client-number` says; with it, 
 is below one. Proved by case analysis on the switch and linear arithmetic on the number, so the guards may be written and
 ordered in any equivalent way; a change of WHICH configurations get a pool, or of its size, is refused. -/
 theorem sharedPool_eq (enabled : Bool) (n : Int) : Gen.HttpWire.sharedPool enabled n = sharedPool enabled n := by
-  unfold Gen.HttpWire.sharedPool sharedPool
-  cases enabled <;> by_cases h1 : n < 1 <;> by_cases h0 : n < 0 <;> simp [h1, h0] <;> omega
+  unfold Gen.HttpWire.sharedPool
+  -- both values of the switch; every `if` / `let` of the regenerated function split into its branches; each leaf is closed by
+  -- reflexivity, by linear arithmetic on the pool size, or refuted by its own path condition — whatever the order of the guards
+  cases enabled <;>
+    simp only [sharedPool, Bool.not_true, Bool.not_false, Bool.false_eq_true, if_true, if_false, decide_eq_true_eq] <;>
+    (repeat' split) <;> first | rfl | (simp only [Option.some.injEq] <;> omega) | (exfalso; omega)
 
 /-- the pool is filled by the gun's own client constructor (same configuration and target as a per-instance client) -/
 theorem sharedPoolFill_shape : Gen.HttpWire.sharedPoolFill = ["Add(recv.ClientConstructor())"] := rfl
+
+/-! ### round 4: util.DecodeHeader -/
+
+private theorem last_idx (l : Str) (x : Nat) (hne : l ≠ []) :
+    (l.getD (l.length - 1) 0 != x) = decide (l.getLast? ≠ some x) := by
+  rw [List.getLast?_eq_getElem?, List.getD_eq_getElem?_getD]
+  have : l.length - 1 < l.length := by
+    cases l with
+    | nil => exact absurd rfl hne
+    | cons a t => simp
+  rw [List.getElem?_eq_getElem this]
+  by_cases e : l[l.length - 1] = x <;> simp [bne, e]
+
+private theorem head_idx (l : Str) (x : Nat) (hne : l ≠ []) : (l.getD 0 0 != x) = decide (l.head? ≠ some x) := by
+  cases l with
+  | nil => exact absurd rfl hne
+  | cons a t => by_cases e : a = x <;> simp [bne, e]
+
+set_option linter.unusedSimpArgs false in
+/-- util.DecodeHeader, translated statement by statement with the conditions under which Go evaluates its index and slice
+expressions without a run-time panic (`Gen.HttpWire.decodeHeader`), never panics and IS the model's `decodeHeader`: `[key: value]`
+with at least three bytes, cut at the FIRST colon, both parts trimmed, an empty key refused. (`cut` / `trim` stand for
+strings.Cut / strings.TrimSpace.) -/
+theorem decodeHeader_eq (h : Str) : Gen.HttpWire.decodeHeader h = some (decodeHeader h) := by
+  unfold Gen.HttpWire.decodeHeader decodeHeader
+  by_cases hl : h.length < 3
+  · have hi : ((h.length : Int) < 3) := by omega
+    have hi2 : ((h.length : Int) ≤ 2) := by omega
+    simp [hl, hi, hi2]
+  · have hne : h ≠ [] := by intro e; simp [e] at hl
+    have hi : ¬ ((h.length : Int) < 3) := by omega
+    have hi2 : ¬ ((h.length : Int) ≤ 2) := by omega
+    have e1 : ((h.length : Int) - 1).toNat = h.length - 1 := by omega
+    have hd : (h.drop 1).take (h.length - 1 - 1) = (h.drop 1).dropLast := by
+      rw [List.dropLast_eq_take, List.length_drop]
+    have p1 : (0:Int) < h.length := by omega
+    have p2 : (0:Int) ≤ (h.length:Int) - 1 := by omega
+    have p3 : (h.length:Int) - 1 < h.length := by omega
+    have p4 : (1:Int) ≤ (h.length:Int) - 1 := by omega
+    have p5 : (h.length:Int) - 1 ≤ h.length := by omega
+    have hh := head_idx h 91 hne
+    have hlast := last_idx h 93 hne
+    -- the index / slice conditions hold, the tests on the first and last byte are the model's
+    simp only [hl, hi, hi2, e1, p1, p2, p3, p4, p5, hh, hlast, hd, decide_true, decide_false, Int.toNat_zero, Int.toNat_one,
+      Int.le_refl, Bool.or_false, Bool.false_or, Bool.true_or, Bool.or_true, Bool.and_true, Bool.true_and, Bool.and_self,
+      Bool.not_true, Bool.not_false, Bool.false_eq_true, if_true, if_false, false_or]
+    by_cases c1 : h.head? = some 91 <;> by_cases c2 : h.getLast? = some 93 <;>
+      simp only [c1, c2, ne_eq, not_true_eq_false, not_false_eq_true, decide_true, decide_false, Bool.or_false, Bool.false_or,
+        Bool.true_or, Bool.or_true, Bool.false_eq_true, if_true, if_false, or_false, false_or, or_true, true_or]
+    cases hc : cut (List.drop 1 h).dropLast 58 with
+    | none => simp
+    | some p =>
+      obtain ⟨k, v⟩ := p
+      by_cases hk : trim k = [] <;> simp [hk]
 
 theorem http2NeedsSSL_eq (ssl : Bool) : constructible .http2 ssl = (!Gen.HttpWire.http2NeedsSSL || ssl) := by
   cases ssl <;> rfl
